@@ -126,23 +126,37 @@ def at1(model):
     endpar = f.params[3] if len(f.params) > 3 else 'end'
     tokvar = unparse(loop.test) if isinstance(loop.test, ast.Name) else None
     if tokvar is None:
-        raise AnalysisError('anchor vanished: `while tok` in arg_buffer')
-    # level variable: assigned before the loop from a test on the opening token
+        # `while True:` with the read at the top: tok = buf.next(); if not tok: break
+        for s0 in loop.body:
+            if isinstance(s0, ast.Assign) and isinstance(s0.targets[0], ast.Name) \
+                    and isinstance(s0.value, ast.Call) and T.call_name(s0.value) in ('next', 'cur', 'skip_space'):
+                tokvar = s0.targets[0].id
+                break
+    if tokvar is None:
+        r.undec(loop, 'token variable of the collecting loop not recognised')
+        r.instances = max(r.instances, r.floor)
+        return r
+    # level variable: the name compared with 0 in the loop; initialised before the loop
     lev = None
+    for n in ast.walk(loop):
+        if isinstance(n, ast.Compare) and isinstance(n.left, ast.Name) and T.is_const(n.comparators[0], 0):
+            lev = n.left.id
     init = None
     for s in f.node.body[:f.node.body.index(loop)]:
-        if isinstance(s, ast.Assign) and isinstance(s.targets[0], ast.Name) \
-                and isinstance(s.value, ast.IfExp):
-            lev, init = s.targets[0].id, s.value
-    if lev is None:
+        if isinstance(s, ast.Assign) and isinstance(s.targets[0], ast.Name) and s.targets[0].id == lev:
+            init = s.value
+    if lev is None or init is None:
         r.fail(f.node, 'the nesting level is not initialised from the opening token',
                stmt='lev = 1 if tok.txt == "{" else 0')
         return r
     # initial value
     for open_txt, want in (('{', 1), ('[', 0)):
-        env = {tokvar: ('tok', open_txt), endpar: '}' if open_txt == '{' else ']'}
+        env = {endpar: '}' if open_txt == '{' else ']'}
+        for n in ast.walk(init):
+            if isinstance(n, ast.Attribute) and n.attr == 'txt' and isinstance(n.value, ast.Name):
+                env[n.value.id] = ('tok', open_txt)
         try:
-            got = _cev(init, env)
+            got = int(_cev(init, env))
         except _Stop as e:
             r.undec(init, 'initial level not evaluated: %s' % e)
             continue
@@ -223,6 +237,9 @@ def _cev(e, env):
     if isinstance(e, ast.BinOp) and isinstance(e.op, (ast.Add, ast.Sub)):
         a, b = _cev(e.left, env), _cev(e.right, env)
         return a + b if isinstance(e.op, ast.Add) else a - b
+    if isinstance(e, ast.Call) and getattr(e.func, 'id', '') in ('int', 'bool') and len(e.args) == 1:
+        v = _cev(e.args[0], env)
+        return int(v) if e.func.id == 'int' else bool(v)
     if isinstance(e, (ast.Tuple, ast.List)):
         return tuple(_cev(x, env) for x in e.elts)
     if isinstance(e, ast.Dict):
@@ -260,6 +277,9 @@ def _crun(stmts, env, eff, tokvar):
                 env[s.targets[0].id] = ('obj',)
         elif isinstance(s, ast.Return):
             eff.append('RETURN')
+            return True
+        elif isinstance(s, ast.Break):
+            eff.append('BREAK')
             return True
         elif isinstance(s, ast.Expr) and isinstance(s.value, ast.Call):
             n = T.call_name(s.value)
@@ -400,7 +420,9 @@ def wl1(model):
         r.fail(wl, 'an iteration does not start by taking a name from the work list')
         return r
     apps = [n for s in wl.body for n in ast.walk(s) if isinstance(n, ast.Call) and T.call_name(n) == 'append']
-    done_app = [a for a in apps if unparse(a.func.value) != todo and not _inside(a, _inner_for(wl))]
+    inner_loops = [n for n in ast.walk(wl) if isinstance(n, ast.For)]
+    done_app = [a for a in apps if unparse(a.func.value) != todo
+                and not any(_inside(a, lp) for lp in inner_loops)]
     todo_app = [a for a in apps if unparse(a.func.value) == todo]
     if len(done_app) != 1:
         r.fail(wl, 'a checked file is recorded %d times per iteration' % len(done_app))
@@ -413,39 +435,52 @@ def wl1(model):
         r.fail(da, 'the file is recorded as %s but tested as %s: the membership test never '
                'matches for names that this transformation changes' % (unparse(da.args[0]), fvar),
                witness='\\input{./a} in a cycle: the file is checked again and again')
-    fs = guards.facts(da)
-    memb = any(not t and isinstance(e, ast.Compare) and isinstance(e.ops[0], ast.In)
-               and unparse(e.left) == fvar and unparse(e.comparators[0]) == done for e, t in fs)
-    skip = any(not t and isinstance(e, ast.Call) and T.call_name(e) == 'skip_file'
-               and unparse(e.args[0]) == fvar for e, t in fs)
-    if memb:
+    def not_in(node, var):
+        """containers C with the fact `var not in C` at node (either polarity form)"""
+        out = set()
+        for e, t in guards.facts(node):
+            if isinstance(e, ast.Compare) and len(e.ops) == 1 and unparse(e.left) == var:
+                if (isinstance(e.ops[0], ast.In) and not t) or (isinstance(e.ops[0], ast.NotIn) and t):
+                    for x in ast.walk(e.comparators[0]):
+                        if isinstance(x, ast.Name):
+                            out.add(x.id)
+        return out
+
+    def not_skipped(node, var):
+        return any(not t and isinstance(e, ast.Call) and T.call_name(e) == 'skip_file'
+                   and e.args and unparse(e.args[0]) == var for e, t in guards.facts(node))
+    if done in not_in(da, fvar):
         r.ok(da, '`%s in %s` is false when the file is recorded: each file once' % (fvar, done),
              nontrivial=True)
     else:
         r.fail(da, 'the file is recorded without a preceding test that it is not done yet')
-    if skip:
+    if not_skipped(da, fvar):
         r.ok(da, 'files matching --skip are not recorded', nontrivial=True)
     else:
         r.fail(da, 'files matching --skip are recorded')
     for a in todo_app:
-        fs = guards.facts(a)
         v = unparse(a.args[0])
-        notin = [e for e, t in fs if isinstance(e, ast.Compare) and unparse(e.left) == v
-                 and (isinstance(e.ops[0], ast.NotIn) and t or isinstance(e.ops[0], ast.In) and not t)]
-        both = any(done in unparse(e.comparators[0]) and todo in unparse(e.comparators[0]) for e in notin)
-        if both:
+        ni = not_in(a, v)
+        if done in ni and todo in ni:
             r.ok(a, 'a new name is added only if neither done nor pending', nontrivial=True)
         else:
             r.fail(a, 'a name is added to the work list without testing both the done and the '
                    'pending list: duplicates / no termination on cycles')
-        if any(not t and isinstance(e, ast.Call) and T.call_name(e) == 'skip_file' for e, t in fs):
+        if not_skipped(a, v):
             r.ok(a, 'names matching --skip are not added', sample=False)
         else:
             r.fail(a, 'names matching --skip are added to the work list')
     # .tex appended before the test
     inner = _inner_for(wl)
-    if inner is not None and any(isinstance(n, ast.AugAssign) and T.is_const(n.value, '.tex')
-                                 for n in ast.walk(inner)):
+    if inner is None:
+        for n in ast.walk(wl):
+            if isinstance(n, ast.For) and n is not wl:
+                inner = n
+    if inner is not None and any(
+            (isinstance(n, ast.AugAssign) and T.is_const(n.value, '.tex')) or
+            (isinstance(n, ast.Assign) and isinstance(n.value, ast.BinOp)
+             and any(T.is_const(x, '.tex') for x in ast.walk(n.value)))
+            for n in ast.walk(inner)):
         r.ok(inner, ".tex is appended where missing")
     else:
         r.fail(wl, ".tex is not appended to included names", stmt='append .tex')
